@@ -113,11 +113,13 @@ class EventValidator:
             self.__event_type_schema_cache = {}
             self.__event_type_schema_cache_ns = {}
 
+        event_type = self.__ontology.get_event_type(event_type_name)
+        if event_type is None:
+            raise EDXMLEventValidationError('Event has an unknown event type: "%s"' % event_type_name)
+
         schema_cache = self.__event_type_schema_cache_ns if namespaced else self.__event_type_schema_cache
         if event_type_name not in schema_cache:
-            schema_cache[event_type_name] = etree.RelaxNG(
-                self.__ontology.get_event_type(event_type_name).generate_relax_ng(self.__ontology, namespaced)
-            )
+            schema_cache[event_type_name] = etree.RelaxNG(event_type.generate_relax_ng(self.__ontology, namespaced))
 
         return schema_cache[event_type_name]
 
